@@ -146,6 +146,8 @@ def main_check(args) -> int:
     if args.only:
         obligations = [o for o in obligations if any(fnmatch.fnmatch(o["name"], g) for g in args.only.split(","))]
     info = getattr(mod, "INFO", {})
+    if info.get("nostrip"):
+        os.environ["VERIF_NOSTRIP"] = ",".join(info["nostrip"])
     known = [k for k in load_known() if k["property"] == pid]
     srcs: dict[str, str] = {}
 
